@@ -153,6 +153,7 @@ class TLCResult:
         self.last_l = None        # value of `l` in the last printed state
         self.prints = []          # PrintT outputs
         self.last_state = ""      # text of the last state of the error trace
+        self.verdict = None       # value of `verdict` in that state
         self.output = ""
         self.wall = 0.0
         self.coverage = {}
@@ -222,7 +223,9 @@ def tlc_run(workdir, module, cfg, workers="auto", timeout=600, simulate=None,
         r.last_l = int(ls[-1])
     states = re.split(r"^State \d+: .*$", out, flags=re.M)
     if len(states) > 1:
-        r.last_state = states[-1].strip()[:4000]
+        r.last_state = states[-1].strip()
+        mv = re.search(r'/\\ verdict = "([^"]*)"', r.last_state)
+        r.verdict = mv.group(1) if mv else None
     r.prints = re.findall(r"^<<.*>>$", out, re.M)
     if r.violated is None:
         if "Model checking completed. No error has been found." in out or \
@@ -329,7 +332,7 @@ def validate_traces(ctx, trace_path, module, cfg, deps, label, timeout=900,
             break
         if r.violated is None:
             raise Infra("trace validation %s: TLC error: %s" % (label, r.error))
-        if r.violated == "Accepted" or r.last_l is None:
+        if r.violated in ("Accepted", "TraceAccepted") or r.last_l is None:
             raise Infra("trace validation %s: could not locate failing line (%s)\n%s" % (label, r.violated, r.output[-3000:]))
         # l in the failing state is the index of the *next* line, so the line
         # that produced the bad state is l-1 (1-based) = index l-2.
@@ -339,10 +342,7 @@ def validate_traces(ctx, trace_path, module, cfg, deps, label, timeout=900,
         traces = split_traces(lines)
         idx = next(k for k, (s, e) in enumerate(traces) if s <= bad <= e)
         s, e = traces[idx]
-        reason = None
-        m = re.search(r'/\\ verdict = "([^"]*)"', r.last_state)
-        if m:
-            reason = m.group(1)
+        reason = r.verdict
         if reason in (None, "ok"):
             reason = "invariant:" + r.violated
         tl = lines[s:bad + 1]
@@ -355,7 +355,7 @@ def validate_traces(ctx, trace_path, module, cfg, deps, label, timeout=900,
             kind = classify(reason, r.violated, failing, tl)
         info = {"property": ctx.prop, "reason": reason, "invariant": r.violated,
                 "failing_line": failing, "label": label, "seed": ctx.seed,
-                "spec": module, "cfg": cfg, "state": r.last_state}
+                "spec": module, "cfg": cfg, "state": r.last_state[-3000:]}
         if kind == "violation":
             p = save_replay(ctx, "%s_%d" % (label, failures), tl, info)
             ctx.violations.append({"reason": reason, "replay": p, "line": failing})
